@@ -48,6 +48,6 @@ Fixpoint split_at_marker (rows : list (list Z)) : list (list Z) * list (list Z) 
   end.
 Definition run_layoutcheck (params : list Z) (rows : list (list Z)) : list (list Z) :=
   match params with
-  | [t1; t2] => let '(a, b) := split_at_marker rows in [[enc_verdict (predicted (negb (t1 =? 0)) a (negb (t2 =? 0)) b)]]
+  | t1 :: t2 :: _ => let '(a, b) := split_at_marker rows in [[enc_verdict (predicted (negb (t1 =? 0)) a (negb (t2 =? 0)) b)]]   (* a third parameter (the harness's own expectation) is ignored *)
   | _ => [[-2]]
   end.
